@@ -14,7 +14,24 @@ VERIF = os.path.dirname(os.path.dirname(os.path.abspath(__file__)))
 REPO = os.environ.get("VERIF_REPO", "/repo")
 SPEC = os.path.join(VERIF, "spec")
 HARNESS = os.path.join(VERIF, "harness")
+if REPO != "/repo":
+    # experiments against a scratch worktree (seeded changes) get their own copy of the harness module,
+    # so that they can run next to checks of /repo
+    _h = os.path.join(VERIF, ".work", "harness-" + hashlib.sha1(REPO.encode()).hexdigest()[:8])
+    if not os.path.isdir(_h):
+        shutil.copytree(HARNESS, _h, ignore=shutil.ignore_patterns("bin"))
+    else:
+        for _root, _dirs, _files in os.walk(HARNESS):
+            if "bin" in _dirs:
+                _dirs.remove("bin")
+            for _f in _files:
+                _dst = os.path.join(_h, os.path.relpath(os.path.join(_root, _f), HARNESS))
+                os.makedirs(os.path.dirname(_dst), exist_ok=True)
+                shutil.copy2(os.path.join(_root, _f), _dst)
+    HARNESS = _h
 BIN = os.path.join(HARNESS, "bin", "cedarconf")
+# evidence and replay files of experiments against a scratch worktree never touch the committed ones
+OUTDIR = VERIF if REPO == "/repo" else os.path.join(os.path.dirname(HARNESS), "out-" + os.path.basename(HARNESS))
 GOENV = dict(os.environ, GOFLAGS="-mod=mod", GOPROXY="off", GOSUMDB="off", GOTOOLCHAIN="local", CGO_ENABLED="0")
 TLA_CP = "/opt/veriftools/tla/tla2tools.jar:/opt/veriftools/tla/CommunityModules-deps.jar"
 NCPU = os.cpu_count() or 4
@@ -368,7 +385,7 @@ def finish(ctx, confirm=None):
             violations.append(cc)
     for kid, (k, hits) in sorted(knownhits.items()):
         print("KNOWN-FINDING: property=%s %s [%s; %d matching case(s), e.g. %s]" % (ctx.pid, k["what"], kid, len(hits), hits[0]["descr"][:200]))
-    rdir = os.path.join(VERIF, "replays", ctx.pid)
+    rdir = os.path.join(OUTDIR, "replays", ctx.pid)
     shown = 0
     for v in violations:
         os.makedirs(rdir, exist_ok=True)
@@ -398,6 +415,6 @@ def write_evidence(ctx, nviol, known_ids):
         cov["samples"] = [{"note": "no sample recorded"}]
     ev = dict(property_id=ctx.pid, tier=ctx.tier, seed=ctx.seed, level=ctx.level, coverage=cov,
               assumptions=ctx.assumptions, wall_s=round(time.time() - ctx.t0, 1), violations=nviol)
-    os.makedirs(os.path.join(VERIF, "evidence"), exist_ok=True)
-    with open(os.path.join(VERIF, "evidence", ctx.pid + ".json"), "w") as f:
+    os.makedirs(os.path.join(OUTDIR, "evidence"), exist_ok=True)
+    with open(os.path.join(OUTDIR, "evidence", ctx.pid + ".json"), "w") as f:
         json.dump(ev, f, indent=1)
